@@ -1,5 +1,5 @@
 (** Property C16 — JSON arguments are coerced faithfully and safely at the service boundary. *)
-From Tx3 Require Import Base Tir Interop Interop_proofs.
+From Tx3 Require Import Base Assets Select Tir Interop Interop_proofs Interop_refs Interop_assemble.
 Local Open Scope string_scope.
 
 Theorem C16_int_dec : forall b64 b32 z, in_i128 z = true ->
@@ -37,6 +37,29 @@ Theorem C16_request_declared_only : forall b64 b32 params args env out,
   forall k, is_Some (lookup_s k out) -> is_Some (lookup_s k params).
 Proof. exact assemble_declared. Qed.
 
+(** ... and holds, for every key, the coerced value that `args` supplies, or else the one `env`
+    supplies: `args` takes precedence, nothing is dropped *)
+Theorem C16_request_args_then_env : forall b64 b32 params args env out,
+  assemble b64 b32 params args env = Ok out ->
+  forall k, lookup_s k out = match supplied b64 b32 params args k with
+                             | Some a => Some a
+                             | None => supplied b64 b32 params env k
+                             end.
+Proof. exact assemble_args_then_env. Qed.
+Theorem C16_request_args_win : forall b64 b32 params args env out k v t,
+  assemble b64 b32 params args env = Ok out ->
+  lookup_s k args = Some v -> lookup_s k params = Some t ->
+  exists a, from_json b64 b32 v t = Ok a /\ lookup_s k out = Some a.
+Proof. exact assemble_args_win. Qed.
+(** a UTxO reference "hex(txid)#index" is read back exactly, for a transaction id of any
+    length and every 32-bit index; an index beyond 32 bits is refused, not truncated *)
+Theorem C16_utxo_ref : forall txid idx, wf_bytes txid = true -> (idx < 2 ^ 32)%N ->
+  value_to_utxo_ref (JStr (hex_encode txid ++ String "#"%char (dec_string (Z.of_N idx)))) = Ok (mk_ref txid idx).
+Proof. exact utxo_ref_roundtrip. Qed.
+Theorem C16_utxo_ref_index_out_of_range : forall txid idx, wf_bytes txid = true -> (2 ^ 32 <= idx)%N ->
+  value_to_utxo_ref (JStr (hex_encode txid ++ String "#"%char (dec_string (Z.of_N idx)))) = Err "InvalidUtxoRef".
+Proof. exact utxo_ref_index_out_of_range. Qed.
+
 Print Assumptions C16_int_dec.
 Print Assumptions C16_int_number.
 Print Assumptions C16_int_hex16.
@@ -47,3 +70,7 @@ Print Assumptions C16_bytes_envelope_hex.
 Print Assumptions C16_bytes_envelope_base64.
 Print Assumptions C16_odd_hex_rejected.
 Print Assumptions C16_request_declared_only.
+Print Assumptions C16_utxo_ref.
+Print Assumptions C16_utxo_ref_index_out_of_range.
+Print Assumptions C16_request_args_then_env.
+Print Assumptions C16_request_args_win.
